@@ -1395,6 +1395,27 @@ pub fn replay(case: &Value, ctx: &mut Ctx) -> bool {
             o2::c02(&input, &out, &c, ctx);
         }
         "c03" => o2::c03(&input, &c, ctx),
+        "c05" => {
+            let toks: Vec<crate::grammar::GTok> = case["gtoks"]
+                .as_array()
+                .map(|a| {
+                    a.iter()
+                        .map(|t| crate::grammar::GTok {
+                            text: t[0].as_str().unwrap_or("").to_string(),
+                            marks: t[1].as_u64().unwrap_or(0) as u16,
+                            pop_k: t[2].as_u64().unwrap_or(0) as u8,
+                            pop_o: t[3].as_u64().unwrap_or(0) as u8,
+                            hard_nl: false,
+                            starts: vec![],
+                        })
+                        .collect()
+                })
+                .unwrap_or_default();
+            let out = ctx.fmt(&c, &input);
+            if o2::c02(&input, &out, &c, ctx) {
+                o2::c05(&input, &toks, &out, &c, ctx);
+            }
+        }
         "c06" => {
             let input2 = case["input2"].as_str().unwrap_or("").to_string();
             o2::c06(&input, &input2, &c, ctx);
